@@ -40,7 +40,26 @@ def space_path(space):
     return out.lstrip(".")
 
 
+def _path_exported(space):
+    """Path of a space object of an exported (modelx-free) package: _parent/_name; ItemSpace roots by their parameters."""
+    import inspect
+    parts = []
+    s = space
+    while getattr(s, "_parent", None) is not None:
+        par = s._parent
+        is_root = bool(getattr(s, "_mx_roots", None)) and s._mx_roots[-1] is s
+        if is_root:
+            names = [n for n in inspect.signature(type(par).__call__).parameters if n != "self"]
+            parts.append("[" + ", ".join(repr(getattr(s, n)) for n in names) + "]")
+        else:
+            parts.append("." + s._name)
+        s = par
+    return "".join(reversed(parts)).lstrip(".")
+
+
 def _path(space):
+    if hasattr(space, "_mx_spaces"):
+        return _path_exported(space)
     parts = []
     s = space
     while s.parent is not None:
